@@ -10,7 +10,7 @@
    BuildUserspace is C12_Model.build_userspace and the three LPM match types are answered by C12_Model.has_prefix on
    C12_Model.probe_bin; `Link_route_with_real_trie` proves that this pipeline returns the first-matching-rule decision
    of C01_Spec, using C01_scan_lower and C12_trie_contains unchanged. *)
-From Coq Require Import List NArith Bool String Arith Lia ZifyBool ZifyN ZifyNat.
+From Coq Require Import ZArith List NArith Bool String Arith Lia ZifyBool ZifyN ZifyNat.
 From Dae Require Import C01_Spec C01_Model C01_Proofs C01_Props.
 From Dae Require C12_Spec C12_Model C12_Proofs C12_Props.
 From Dae.gen Require Import C01_Consts.
